@@ -3,6 +3,7 @@ package main
 import (
 	"fmt"
 	"go/ast"
+	"go/constant"
 	"go/token"
 	"go/types"
 	"sort"
@@ -13,13 +14,33 @@ import (
 
 // R-SANDBOX (C12): deny flags dominate every process start and file open.
 
-const (
-	oWRONLY = 0x1
-	oRDWR   = 0x2
-	oAPPEND = 0x400
-	oCREATE = 0x40
-	oTRUNC  = 0x200
+// Open-flag values of the platform the program was loaded for. They are read from the loaded package os
+// (setOpenFlags, called by load): O_CREATE, O_TRUNC and O_APPEND differ between linux, darwin and windows, and the
+// flag constants in the analysed code are folded with the target platform's values.
+var (
+	oWRONLY int64 = 0x1
+	oRDWR   int64 = 0x2
+	oAPPEND int64 = 0x400
+	oCREATE int64 = 0x40
+	oTRUNC  int64 = 0x200
 )
+
+// setOpenFlags reads os.O_* from the type-checked package os of the loaded program. An unresolvable constant is an error
+// (the flag clauses would otherwise be decided with another platform's values).
+func setOpenFlags(osPkg *types.Package) error {
+	for name, dst := range map[string]*int64{"O_WRONLY": &oWRONLY, "O_RDWR": &oRDWR, "O_APPEND": &oAPPEND, "O_CREATE": &oCREATE, "O_TRUNC": &oTRUNC} {
+		k, ok := osPkg.Scope().Lookup(name).(*types.Const)
+		if !ok {
+			return fmt.Errorf("os.%s is not a constant of the loaded package os", name)
+		}
+		v, exact := constant.Int64Val(k.Val())
+		if !exact || v == 0 {
+			return fmt.Errorf("os.%s has no usable value", name)
+		}
+		*dst = v
+	}
+	return nil
+}
 
 var procStartMethods = map[string]bool{
 	"(*os/exec.Cmd).Start": true, "(*os/exec.Cmd).Run": true, "(*os/exec.Cmd).Output": true,
